@@ -10,7 +10,7 @@
       Task/Unique.v, and at every marker the model state must equal the snapshot.
    [ucase_spec_ok]: the clauses of property C13 evaluated on the observation alone (no model).
    No proofs here. *)
-From PV Require Import Common.Util Task.Unique.
+From PV Require Import Common.Util Gen.UniqueConsts Task.Unique.
 From Coq Require Import String Ascii.
 Import List ListNotations.
 Local Open Scope list_scope.
@@ -40,6 +40,7 @@ Record ucase := {
   uc_legacy : bool;
   uc_ctxs : list string;
   uc_tasks : list tinfo;                          (* position = task id *)
+  uc_horizon : N;                                 (* virtual seconds the scenario lasted *)
   uc_events : list oevent;
   uc_sane : bool                                  (* the driver reported no error *)
 }.
@@ -112,8 +113,8 @@ Definition poll_one (cfg : deviations) (c : ucase) (v : vstate) (t : task) : vst
         else if negb pc && km && used cfg s ctx name then vtry cfg v (UDecStart t ctx name km lg) else v
       else if memN t (started s) then v
       else
-        let admit := negb (pc && km && used cfg s ctx name) in
-        if negb pc || Bool.eqb admit (begun c t) then vtry cfg v (UDispatch t ctx name km lg) else v
+        let adm := negb (pc && km && used cfg s ctx name) in
+        if negb pc || Bool.eqb adm (begun c t) then vtry cfg v (UDispatch t ctx name km lg) else v
   | None => v
   end.
 Definition poll (cfg : deviations) (c : ucase) (v : vstate) : vstate :=
@@ -242,7 +243,7 @@ Definition validate (cfg : deviations) (c : ucase) : option vstate :=
   fold_left_opt (vevent cfg c) (uc_events c) v0.
 
 Definition ucase_model_ok (cfg : deviations) (c : ucase) : bool :=
-  uc_sane c && match validate cfg c with Some v => vfinal c v | None => false end.
+  uc_sane c && (uc_horizon c <? kill_me_wait_s)%N && match validate cfg c with Some v => vfinal c v | None => false end.
 
 (* the path of the LTS that the observation was matched with (oldest first) *)
 Definition ucase_path (cfg : deviations) (c : ucase) : option (list ulabel) :=
